@@ -14,8 +14,8 @@ import (
 func init() {
 	register(Property{ID: "C04", Level: "proof", Run: runC04,
 		Technique: "static analysis: dominance of route registrations by Use(middlewareAuth) on the single gin engine (AST + go/types), must-pass-through path conditions on the auth middlewares and the playback handlers (go/ssa), who-may-construct rule for gin engines",
-		Text: "For api.API, metrics.Metrics and pprof.PPROF: the only gin engine of Initialize is the one handed to httpp.Server.Handler, Use(middlewareAuth) is an unconditional statement that precedes every route registration on the engine or on groups derived from it, no other engine exists in the package; each middlewareAuth builds an auth.Request with the constant action api/metrics/pprof, the client's credentials and IP, and on every path where Authenticate fails it reaches writeErrorNoLog(ctx, 401, ...) (which aborts the chain with AbortWithStatusJSON) before returning. Playback registers exactly onList/onGet, and in both every data-producing call (safeFindPathConf, FindSegments, parseAndConcatenate, seekAndMux, ctx.JSON) is dominated by IsValidPathName(path)==nil and doAuth(ctx, path) true for the same path expression; doAuth uses action playback on that path and returns true only when Authenticate returned nil, false only after a 401 abort. Preflight middlewares answer 204 and write no body. The IP of every auth request is ctx.ClientIP(); it is the connection's (or a configured proxy's) because in each Initialize the single gin engine receives SetTrustedProxies(recv.TrustedProxies.ToTrustedProxies()) on every path before it is handed to / started by the HTTP server (gin.New() alone trusts X-Forwarded-For of every peer), and no function of the module writes gin.Engine.TrustedPlatform / RemoteIPHeaders / ForwardedByClientIP. Obligations = route registrations x clauses.",
-		Note: "trusted: gin middleware ordering and Abort semantics (handlers after an aborted middleware do not run); the auth manager (C01/C02)"})
+		Text:      "For api.API, metrics.Metrics and pprof.PPROF: the only gin engine of Initialize is the one handed to httpp.Server.Handler, Use(middlewareAuth) is an unconditional statement that precedes every route registration on the engine or on groups derived from it, no other engine exists in the package; each middlewareAuth builds an auth.Request with the constant action api/metrics/pprof, the client's credentials and IP, and on every path where Authenticate fails it reaches writeErrorNoLog(ctx, 401, ...) (which aborts the chain with AbortWithStatusJSON) before returning. Playback registers exactly onList/onGet, and in both every data-producing call (safeFindPathConf, FindSegments, parseAndConcatenate, seekAndMux, ctx.JSON) is dominated by IsValidPathName(path)==nil and doAuth(ctx, path) true for the same path expression; doAuth uses action playback on that path and returns true only when Authenticate returned nil, false only after a 401 abort. Preflight middlewares answer 204 and write no body. The IP of every auth request is ctx.ClientIP(); it is the connection's (or a configured proxy's) because in each Initialize the single gin engine receives SetTrustedProxies(recv.TrustedProxies.ToTrustedProxies()) on every path before it is handed to / started by the HTTP server (gin.New() alone trusts X-Forwarded-For of every peer), and no function of the module writes gin.Engine.TrustedPlatform / RemoteIPHeaders / ForwardedByClientIP. Obligations = route registrations x clauses.",
+		Note:      "trusted: gin middleware ordering and Abort semantics (handlers after an aborted middleware do not run); the auth manager (C01/C02)"})
 	addMutants(
 		Mutant{"C04", "route-before-auth-middleware", "internal/api/api.go",
 			"	router.Use(a.middlewareAuth)\n\n	group := router.Group(\"/v3\")\n\n	group.GET(\"/info\", a.onInfo)\n",
@@ -61,7 +61,10 @@ func runC04(c *Ctx) {
 	c.Explain = "AST rule on Initialize of api/metrics/pprof/playback: one `gin.New()` per function bound to a local never re-assigned; `X.Use(recv.middlewareAuth)` is a top-level statement of the function body and textually precedes (hence dominates, being unconditional) every registration call (GET/POST/PATCH/DELETE/.../Group/pprof.Register) on the engine or its groups; Handler: router. SSA rules on middlewareAuth / writeErrorNoLog / middlewarePreflightRequests / playback doAuth, onList, onGet. SSA barrier rule on the four Initialize functions: the store of the engine into httpp.Server.Handler and the call of httpp.Server.Initialize are preceded on every path by SetTrustedProxies(engine, recv.TrustedProxies.ToTrustedProxies()); module-wide who-may-store on the gin.Engine fields that change what ClientIP() trusts. Not decided: gin internals (that ClientIP() honours forwarding headers only from the trusted proxy list)."
 	c.Assume = []string{"gin runs middlewares registered with Use before the handlers of routes registered afterwards and skips the remaining handlers after Abort*", "auth.Manager decides correctly (C01/C02)"}
 
-	type comp struct{ pkg, recv, action string; auth bool }
+	type comp struct {
+		pkg, recv, action string
+		auth              bool
+	}
 	routes := 0
 	for _, cm := range []comp{{"internal/api", "API", "api", true}, {"internal/metrics", "Metrics", "metrics", true}, {"internal/pprof", "PPROF", "pprof", true}, {"internal/playback", "Server", "", false}} {
 		fd, pk := p.FuncDecl(cm.pkg, cm.recv, "Initialize")
